@@ -45,7 +45,8 @@ DERIVES = {
     "unwrap": ["Unwrap"],
 }
 HELPERS = {  # helper type -> features under which the documentation uses it
-    "BinaryError": ["add"], "WrongVariantError": ["add"], "UnitError": ["add", "not"], "FromStrError": ["from_str"],
+    # (`#[mul(forward)]` is documented to behave like `Add`, whose enum form returns `Result<_, BinaryError>`)
+    "BinaryError": ["add", "mul"], "WrongVariantError": ["add", "mul"], "UnitError": ["add", "mul", "not"], "FromStrError": ["from_str"],
     "TryFromReprError": ["try_from"], "TryIntoError": ["try_into"], "TryUnwrapError": ["try_unwrap"],
 }
 FEATURES = sorted(DERIVES)
@@ -106,6 +107,70 @@ def test_targets():
     return _targets
 
 
+_corpus = {}
+
+
+def corpus_for(cfg):
+    """Items of the supported-items corpus that use only derives (and helper attributes) of the features in `cfg`."""
+    key = tuple(cfg)
+    if key in _corpus:
+        return _corpus[key]
+    from . import inproc, items as items_mod
+    table = inproc.derives()
+    attrs_of = {tr: set(at) for _, _, tr, at in table}
+    allowed_derives = set(d for f in cfg for d in DERIVES[f])
+    allowed_attrs = set(a for d in allowed_derives for a in attrs_of.get(d, ())) | {"repr", "allow", "deprecated", "inline"}
+    out = []
+    for it in items_mod.all_items():
+        if it.std_derives:
+            continue
+        ds = [d for d in it.derives if d in allowed_derives]
+        if not ds:
+            continue
+        used = set(re.findall(r"#\[(\w+)", it.src))
+        if not used <= allowed_attrs:
+            continue
+        # Sum/Product fold with the type's own Add/Mul impl, DerefMut/IndexMut need the type's Deref/Index:
+        # only meaningful next to those derives
+        for dep, need in (("Sum", "Add"), ("Product", "Mul"), ("DerefMut", "Deref"), ("IndexMut", "Index")):
+            if dep in ds and need not in ds:
+                ds = [d for d in ds if d != dep]
+        if not ds:
+            continue
+        out.append(items_mod.Item(ds, it.src, it.dims))
+    _corpus[key] = out
+    return out
+
+
+def write_corpus_crate(cdir, cfg, std):
+    from . import items as items_mod
+    feats = ", ".join('"%s"' % f for f in list(cfg) + (["std"] if std else []))
+    common.write_if_changed(os.path.join(cdir, "Cargo.toml"), """[package]
+name = "c20_corpus"
+version = "0.0.0"
+edition = "2021"
+
+[workspace]
+
+[dependencies]
+derive_more = { path = "%s", default-features = false, features = [%s] }
+rt = { path = "%s" }
+""" % (common.REPO, feats, os.path.join(common.VERIF, "harness", "rt")))
+    lock = os.path.join(common.REPO, "Cargo.lock")
+    if not os.path.exists(os.path.join(cdir, "Cargo.lock")):
+        shutil.copy(lock, os.path.join(cdir, "Cargo.lock"))
+    lines = ("#![allow(warnings)]\n" + items_mod.PRELUDE).split("\n")
+    ranges = []
+    for i, it in enumerate(corpus_for(cfg)):
+        a = len(lines) + 1
+        lines.append("pub mod m%d { use super::*;" % i)
+        lines.extend(it.text("T%d" % i).split("\n"))
+        lines.append("}")
+        ranges.append((a, len(lines), i))
+    common.write_if_changed(os.path.join(cdir, "src", "lib.rs"), "\n".join(lines) + "\n")
+    return ranges
+
+
 def run_config(args):
     cfg, std, do_tests, slot, base = args
     tdir = os.path.join(base, "t%d" % slot)
@@ -157,6 +222,27 @@ def run_config(args):
     if rc != 0 and not unresolved and not other:
         out["probe_infra"] = err[-1500:]
     out["exports"] = sorted(set(p for p, _ in probe_names()) - unresolved)
+    # (4) the supported-items corpus restricted to this configuration's derives must compile in isolation
+    out["corpus_items"] = 0
+    out["corpus_errors"] = []
+    if len(cfg) <= 2:
+        cdir = os.path.join(base, "corpus%d" % slot)
+        ranges = write_corpus_crate(cdir, cfg, std)
+        out["corpus_items"] = len(ranges)
+        if ranges:
+            rc, diags, arts, err = common.cargo_json(cdir, ("check",), jobs=2, target=tdir, timeout=1800)
+            items_list = corpus_for(cfg)
+            for d in diags:
+                if d.get("level") != "error" or d.get("message", "").startswith(("aborting", "could not compile")):
+                    continue
+                who = None
+                for fn, line, primary in common.diag_lines(d):
+                    for a, b, i in ranges:
+                        if line is not None and a <= line <= b:
+                            who = i
+                out["corpus_errors"].append((d.get("message", "")[:300], items_list[who].text("T") if who is not None else None))
+            if rc != 0 and not out["corpus_errors"]:
+                out["probe_infra"] = err[-1500:]
     return out
 
 
@@ -233,6 +319,10 @@ def run(ctx):
             raise Inconclusive("probe crate failed under %s: %s" % (name, r["probe_infra"][-500:]))
         if r["probe_other_errors"]:
             ctx.violate("probe-build:%s" % name, "a crate importing derive_more does not build under %s: %s" % (name, r["probe_other_errors"]), config=name)
+        ctx.bump("corpus_items_compiled_in_isolation", r.get("corpus_items", 0))
+        for msg, item in r.get("corpus_errors", [])[:3]:
+            ctx.violate("isolated-corpus:%s:%s" % ("+".join(cfg), re.sub(r"T\d+", "T", msg)[:60]),
+                        "under %s a supported item does not compile although it does under `full`: %s\n%s" % (name, msg, item), config=name, message=msg, item=item)
         exp = expected_exports(cfg)
         got = set(r["exports"])
         if got != exp:
